@@ -9,7 +9,7 @@
 // Values never travel as decimal floating point: double = 16 hex digits of the bit
 // pattern, float = 8, complex = re,im; integers decimal.  Files travel as hex strings.
 //
-// Allocation cap: operator new above 256 MiB throws std::bad_alloc (the model's
+// Allocation cap: operator new above 16 MiB throws std::bad_alloc (the model's
 // MMFormat.alloc_cap), so "resize(garbage from the file)" is a deterministic EXC alloc
 // instead of an ASan out-of-memory abort or a 30 GiB memset.
 #include <cstdlib>
@@ -32,7 +32,7 @@
 #include <functional>
 #include <stdexcept>
 
-static const std::size_t ALLOC_CAP = 268435456;
+static const std::size_t ALLOC_CAP = 16777216;
 void* operator new(std::size_t n) { if (n > ALLOC_CAP) throw std::bad_alloc(); void *p = std::malloc(n ? n : 1); if (!p) throw std::bad_alloc(); return p; }
 void* operator new[](std::size_t n) { return operator new(n); }
 void operator delete(void *p) noexcept { std::free(p); }
@@ -216,36 +216,57 @@ template <class T, class SizeT> static std::string do_bin_readd(long r0, long r1
 }
 
 // ------------------------------------------------------------------ isolation: fork per evaluation
+// Sanitizer reports are produced with symbolize=0 (symbolizing in every dying child costs
+// ~0.2 s); frames "(<module>+0x<off>)" of this executable are resolved here, in the parent,
+// through a cache: `addr2line -i` and the first location inside the library under test.
+static std::string self_exe() { char b[4096]; ssize_t n = readlink("/proc/self/exe", b, sizeof b - 1); return n > 0 ? std::string(b, (size_t)n) : std::string(); }
+static std::string resolve_frame(const std::string &off) {
+    static std::map<std::string, std::string> cache;
+    auto it = cache.find(off); if (it != cache.end()) return it->second;
+    std::string res, cmd = "addr2line -i -e '" + self_exe() + "' " + off + " 2>/dev/null";
+    if (FILE *f = popen(cmd.c_str(), "r")) {
+        char line[4096];
+        while (fgets(line, sizeof line, f)) {
+            std::string l = line; while (!l.empty() && (l.back() == '\n' || l.back() == ' ')) l.pop_back();
+            size_t a = l.find("/amgcl/");
+            if (a != std::string::npos && res.empty()) { res = l.substr(a + 1); size_t sp = res.find(' '); if (sp != std::string::npos) res = res.substr(0, sp); }
+        }
+        pclose(f);
+    }
+    if (!res.empty()) cache[off] = res;   // failures (e.g. popen under memory pressure) are retried
+    return res;
+}
+static std::string first_amgcl_frame(const std::string &err, size_t from) {
+    std::string exe = self_exe(); size_t q = from; int frames = 0;
+    while ((q = err.find("(" + exe + "+0x", q)) != std::string::npos && frames < 12) {
+        size_t b = q + exe.size() + 2, e = err.find(')', b);
+        if (e == std::string::npos) break;
+        std::string loc = resolve_frame(err.substr(b, e - b));
+        if (!loc.empty()) return loc;
+        q = e; ++frames;
+    }
+    // already symbolized report (symbolize=1)
+    q = from;
+    while ((q = err.find("/amgcl/", q)) != std::string::npos) {
+        size_t le = err.find_first_of(" \n", q); std::string l2 = err.substr(q + 1, le - q - 1);
+        if (l2.find(':') != std::string::npos) return l2;
+        q = le;
+    }
+    return std::string();
+}
 static std::string summarize_crash(int status, const std::string &err) {
-    std::string kind, where;
-    // UBSan: "<file>:<line>:<col>: runtime error: <msg>"
+    // UBSan: "<file>:<line>:<col>: runtime error: <msg>"  (or "<module>+0x..: runtime error" unsymbolized)
     size_t p = err.find("runtime error: ");
     if (p != std::string::npos) {
         size_t e = err.find('\n', p); std::string msg = err.substr(p + 15, e == std::string::npos ? std::string::npos : e - p - 15);
-        size_t b = err.rfind('\n', p); b = (b == std::string::npos) ? 0 : b + 1;
-        std::string loc = err.substr(b, p - b);
-        // with UBSAN_OPTIONS=print_stacktrace=1: first frame inside the library under test
-        size_t q = p;
-        while ((q = err.find("/amgcl/", q)) != std::string::npos) {
-            size_t le = err.find_first_of(" \n", q); std::string l2 = err.substr(q + 1, le - q - 1);
-            if (l2.find(':') != std::string::npos) { loc = l2; break; }
-            q = le;
-        }
-        size_t inc = loc.find("/include/"); if (inc != std::string::npos) loc = loc.substr(inc + 9);
-        while (!loc.empty() && (loc.back() == ' ' || loc.back() == ':')) loc.pop_back();
+        std::string loc = first_amgcl_frame(err, p);
         for (auto &c : msg) if (c == ' ') c = '_';
-        return "CRASH ubsan " + msg.substr(0, 80) + " @" + loc;
+        return "CRASH ubsan " + msg.substr(0, 80) + " @" + (loc.empty() ? "?" : loc);
     }
     p = err.find("ERROR: AddressSanitizer: ");
     if (p != std::string::npos) {
-        size_t e = err.find_first_of(" \n", p + 25); kind = err.substr(p + 25, e - p - 25);
-        // first frame inside the library under test
-        size_t q = p;
-        while ((q = err.find("/amgcl/", q)) != std::string::npos) {
-            size_t le = err.find_first_of(" \n", q); std::string loc = err.substr(q + 1, le - q - 1);
-            if (loc.find(':') != std::string::npos) { where = loc; break; }
-            q = le;
-        }
+        size_t e = err.find_first_of(" \n", p + 25); std::string kind = err.substr(p + 25, e - p - 25);
+        std::string where = first_amgcl_frame(err, p);
         return "CRASH asan " + kind + " @" + (where.empty() ? "?" : where);
     }
     std::ostringstream os;
